@@ -38,6 +38,13 @@ func (s *Scanner) Scan() bool {
 		return false
 	}
 
+	// The end of the input is the regular end of a scan only where a record
+	// would begin: a stream that stops inside a record is an error.
+	if err := s.s.Request(1); err != nil {
+		s.err = err
+		return false
+	}
+
 	if s.p == nil {
 		errs := make([]struct {
 			err error
@@ -80,7 +87,7 @@ func (s Scanner) Value() gts.Sequence {
 
 // Err returns the first non-EOF error that was encountered by the scanner.
 func (s Scanner) Err() error {
-	if s.err == nil || dig(s.err) == io.EOF {
+	if s.err == nil || s.err == io.EOF {
 		return nil
 	}
 	return s.err
